@@ -66,6 +66,7 @@ func newEvent(w LevelWriter, level Level) *Event {
 	e.level = level
 	e.stack = false
 	e.skipFrame = 0
+	e.ctx = nil
 	return e
 }
 
